@@ -5,7 +5,8 @@ use crate::docgen::*;
 use crate::model::*;
 use crate::Args;
 use serde::{Deserialize, Serialize};
-use serde_saphyr::{RcAnchor, RcWeakAnchor};
+use serde_saphyr::{ArcAnchor, ArcRecursive, RcAnchor, RcRecursive, RcWeakAnchor};
+use std::sync::Arc;
 use std::rc::Rc;
 
 #[derive(Serialize, Deserialize, Debug)]
@@ -54,6 +55,25 @@ struct Outer {
     second: RcAnchor<Item>,
     weak: RcWeakAnchor<Item>,
 }
+/// the same nested call with the outer document's anchors held by the other wrapper families
+#[derive(Deserialize)]
+struct OuterArc {
+    first: ArcAnchor<Item>,
+    probe: NestedProbe,
+    second: ArcAnchor<Item>,
+}
+#[derive(Deserialize)]
+struct OuterRcRec {
+    first: RcRecursive<Item>,
+    probe: NestedProbe,
+    second: RcRecursive<Item>,
+}
+#[derive(Deserialize)]
+struct OuterArcRec {
+    first: ArcRecursive<Item>,
+    probe: NestedProbe,
+    second: ArcRecursive<Item>,
+}
 /// nested call inside an anchored RcAnchor node of the outer parse
 #[derive(Deserialize)]
 struct InnerHolder {
@@ -76,7 +96,7 @@ struct PanicDoc {
     boom: RcAnchor<Panicker>,
 }
 
-pub const CALLS: [&str; 11] = ["ok-shared", "fail-in-anchored", "fail-missing-field", "budget", "panic", "nested", "nested-in-anchor", "iter-abandon", "serialize-shared", "unknown-alias", "weak-ok"];
+pub const CALLS: [&str; 14] = ["ok-shared", "fail-in-anchored", "fail-missing-field", "budget", "panic", "nested", "nested-in-anchor", "iter-abandon", "serialize-shared", "unknown-alias", "weak-ok", "nested-arc", "nested-rcrec", "nested-arcrec"];
 
 /// executes one call and returns its fingerprint (value / sharing / error class / location)
 pub fn call(name: &str) -> String {
@@ -111,6 +131,18 @@ pub fn call(name: &str) -> String {
             }
             "nested" => match serde_saphyr::from_str::<Outer>("first: &a {v: 1}\nprobe: hello\nsecond: *a\nweak: *a\n") {
                 Ok(o) => format!("ok probe={} shared={} weak={}", o.probe.0, Rc::ptr_eq(&o.first.0, &o.second.0), o.weak.0.upgrade().map(|w| Rc::ptr_eq(&w, &o.first.0)).unwrap_or(false)),
+                Err(e) => format!("err {} {:?}", classify(&e), err_loc(&e)),
+            },
+            "nested-arc" => match serde_saphyr::from_str::<OuterArc>("first: &a {v: 1}\nprobe: hello\nsecond: *a\n") {
+                Ok(o) => format!("ok probe={} shared={}", o.probe.0, Arc::ptr_eq(&o.first.0, &o.second.0)),
+                Err(e) => format!("err {} {:?}", classify(&e), err_loc(&e)),
+            },
+            "nested-rcrec" => match serde_saphyr::from_str::<OuterRcRec>("first: &a {v: 1}\nprobe: hello\nsecond: *a\n") {
+                Ok(o) => format!("ok probe={} shared={}", o.probe.0, Rc::ptr_eq(&o.first.0, &o.second.0)),
+                Err(e) => format!("err {} {:?}", classify(&e), err_loc(&e)),
+            },
+            "nested-arcrec" => match serde_saphyr::from_str::<OuterArcRec>("first: &a {v: 1}\nprobe: hello\nsecond: *a\n") {
+                Ok(o) => format!("ok probe={} shared={}", o.probe.0, Arc::ptr_eq(&o.first.0, &o.second.0)),
                 Err(e) => format!("err {} {:?}", classify(&e), err_loc(&e)),
             },
             "nested-in-anchor" => match serde_saphyr::from_str::<Vec<RcAnchor<InnerHolder>>>("- &h {v: 1, probe: hi}\n- *h\n") {
